@@ -1145,6 +1145,12 @@ theorem atMostOne_quant_fixed {e : Env} {rtl : Bool} {a : Pat} (lzy : Bool) (n :
 
 /-! ## alternation: prefix factoring, n-ary form, exclusive branches -/
 
+theorem seq_empty_right (e : Env) (a : Pat) (rtl : Bool) (st : St) : m e (.seq a .empty) rtl st = m e a rtl st := by
+  cases rtl <;> simp [m]
+
+theorem seq_empty_left (e : Env) (a : Pat) (rtl : Bool) (st : St) : m e (.seq .empty a) rtl st = m e a rtl st := by
+  cases rtl <;> simp [m]
+
 theorem flatMap_append_of_length_le_one {α β : Type} (l : List α) (hl : l.length ≤ 1) (f g : α → List β) :
     l.flatMap f ++ l.flatMap g = l.flatMap (fun x => f x ++ g x) := by
   match l, hl with
@@ -1170,6 +1176,13 @@ theorem m_altOf (e : Env) (rtl : Bool) (st : St) : ∀ (l : List Pat),
   | a :: b :: rest => by
     have := m_altOf e rtl st (b :: rest)
     simp only [altOf, m, this, List.flatMap_cons]
+
+/-- a literal string (a Multi node) has at most one success -/
+theorem atMostOne_seqOf {e : Env} {rtl : Bool} : ∀ (l : List Pat), (∀ a ∈ l, AtMostOne e rtl a) → AtMostOne e rtl (seqOf l)
+  | [], _ => atMostOne_empty e rtl
+  | [a], h => h a (by simp)
+  | a :: b :: rest, h =>
+    atMostOne_seq (h a (by simp)) (atMostOne_seqOf (b :: rest) (fun x hx => h x (by simp [hx])))
 
 /-- two branches that never both succeed from the same state -/
 def Exclusive (e : Env) (rtl : Bool) (a b : Pat) : Prop := ∀ st, m e a rtl st = [] ∨ m e b rtl st = []
@@ -1297,6 +1310,192 @@ theorem front_subset_within_run (e : Env) (p : Pred) (lzy : Bool) (lo : Nat) (i 
     obtain ⟨y, hy, hty⟩ := ht
     exact ⟨y, ih y hy, hty⟩
   | atomic ha _ _ => cases ha
+
+/-! ## loops in tail position whose body ends in a loop (`(?:abc*)*  ⇒  (?:ab(?>c*))*`) -/
+
+/-- `l'` is `l` with some elements at dead positions removed -/
+inductive DeadSub (D : Nat → Bool) : List St → List St → Prop
+  | nil : DeadSub D [] []
+  | keep (x : St) {l' l : List St} : DeadSub D l' l → DeadSub D (x :: l') (x :: l)
+  | drop {x : St} {l' l : List St} : D x.pos = true → DeadSub D l' l → DeadSub D l' (x :: l)
+
+theorem DeadSub.refl (D : Nat → Bool) : ∀ (l : List St), DeadSub D l l
+  | [] => .nil
+  | x :: xs => .keep x (DeadSub.refl D xs)
+
+theorem DeadSub.append {D : Nat → Bool} {a' a b' b : List St} (h1 : DeadSub D a' a) (h2 : DeadSub D b' b) :
+    DeadSub D (a' ++ b') (a ++ b) := by
+  induction h1 with
+  | nil => exact h2
+  | keep x _ ih => exact .keep x ih
+  | drop hx _ ih => exact .drop hx ih
+
+theorem DeadSub.flatMap {D : Nat → Bool} {α : Type} (l : List α) (f' f : α → List St)
+    (h : ∀ x ∈ l, DeadSub D (f' x) (f x)) : DeadSub D (l.flatMap f') (l.flatMap f) := by
+  induction l with
+  | nil => exact .nil
+  | cons x xs ih =>
+    simp only [List.flatMap_cons]
+    exact (h x (by simp)).append (ih (fun y hy => h y (by simp [hy])))
+
+theorem DeadSub.map {D : Nat → Bool} (φ : St → St) (hφ : ∀ s, (φ s).pos = s.pos) {l' l : List St}
+    (h : DeadSub D l' l) : DeadSub D (l'.map φ) (l.map φ) := by
+  induction h with
+  | nil => exact .nil
+  | keep x _ ih => exact .keep _ ih
+  | drop hx _ ih => exact .drop (by rw [hφ]; exact hx) ih
+
+theorem DeadSub.take_one {D : Nat → Bool} (l : List St) (h : ∀ t ∈ l.tail, D t.pos = true) :
+    DeadSub D (l.take 1) l := by
+  cases l with
+  | nil => exact .nil
+  | cons x xs =>
+    simp only [List.tail_cons] at h
+    simp only [List.take_succ_cons, List.take_zero]
+    refine .keep x ?_
+    induction xs with
+    | nil => exact .nil
+    | cons y ys ih => exact .drop (h y (by simp)) (ih (fun t ht => h t (by simp [ht])))
+
+theorem DeadSub.mono {D D' : Nat → Bool} (hD : ∀ i, D i = true → D' i = true) {l' l : List St}
+    (h : DeadSub D l' l) : DeadSub D' l' l := by
+  induction h with
+  | nil => exact .nil
+  | keep x _ ih => exact .keep x ih
+  | drop hx _ ih => exact .drop (hD _ hx) ih
+
+/-- a continuation that fails at dead positions cannot tell the two lists apart -/
+theorem DeadSub.flatMap_eq {D : Nat → Bool} {β : Type} (F : St → List β) (hF : ∀ s, D s.pos = true → F s = [])
+    {l' l : List St} (h : DeadSub D l' l) : l.flatMap F = l'.flatMap F := by
+  induction h with
+  | nil => rfl
+  | keep x _ ih => simp only [List.flatMap_cons, ih]
+  | drop hx _ ih => simp only [List.flatMap_cons, hF _ hx, List.nil_append, ih]
+
+theorem head?_flatMap_of_ne_nil {α β : Type} (l : List α) (F : α → List β) (hF : ∀ x ∈ l, F x ≠ []) :
+    (l.flatMap F).head? = l.head?.bind (fun x => (F x).head?) := by
+  cases l with
+  | nil => rfl
+  | cons x xs =>
+    simp only [List.flatMap_cons, List.head?_cons, Option.bind_some]
+    cases hx : F x with
+    | nil => exact absurd hx (hF x (by simp))
+    | cons y ys => rfl
+
+/-- **a loop in tail position**: if the bodies have the same first success, the second body's
+    successes are the first's minus some at dead positions, and the first body fails at dead
+    positions, then the loops have the same first success -/
+theorem iter_head_prune {D : Nat → Bool} (f g : St → List St)
+    (hhead : ∀ st, (f st).head? = (g st).head?) (hsub : ∀ st, DeadSub D (g st) (f st))
+    (hf : ∀ st, D st.pos = true → f st = [])
+    (lzy : Bool) (lo : Nat) (hi : Option Nat) :
+    ∀ (fuel cnt : Nat) (st : St),
+      (iter f lzy lo hi fuel cnt st).head? = (iter g lzy lo hi fuel cnt st).head? := by
+  -- once the lower bound is met a loop always has a success
+  have ne_nil : ∀ (h : St → List St) (fuel cnt : Nat) (st : St), lo ≤ cnt → iter h lzy lo hi fuel cnt st ≠ [] := by
+    intro h fuel cnt st hlo
+    cases fuel with
+    | zero => simp [iter, hlo]
+    | succ fuel => cases lzy <;> simp [iter, hlo]
+  -- below the lower bound a loop has no success from a dead state
+  have dead_nil : ∀ (h : St → List St), (∀ st, D st.pos = true → h st = []) →
+      ∀ (fuel cnt : Nat) (st : St), ¬ lo ≤ cnt → D st.pos = true → iter h lzy lo hi fuel cnt st = [] := by
+    intro h hh fuel cnt st hlo hd
+    cases fuel with
+    | zero => simp [iter, hlo]
+    | succ fuel => cases lzy <;> simp [iter, hlo, hh st hd]
+  intro fuel
+  induction fuel with
+  | zero => intro cnt st; rfl
+  | succ fuel ih =>
+    intro cnt st
+    have hmore : ((f st).flatMap (fun st' =>
+            if (st'.pos == st.pos && decide (lo ≤ cnt + 1)) = true then [st']
+            else iter f lzy lo hi fuel (cnt + 1) st')).head?
+        = ((g st).flatMap (fun st' =>
+            if (st'.pos == st.pos && decide (lo ≤ cnt + 1)) = true then [st']
+            else iter g lzy lo hi fuel (cnt + 1) st')).head? := by
+      have hpt : ∀ y, (if (y.pos == st.pos && decide (lo ≤ cnt + 1)) = true then [y]
+            else iter f lzy lo hi fuel (cnt + 1) y).head?
+          = (if (y.pos == st.pos && decide (lo ≤ cnt + 1)) = true then [y]
+            else iter g lzy lo hi fuel (cnt + 1) y).head? := by
+        intro y; split
+        · rfl
+        · exact ih (cnt + 1) y
+      by_cases hlo : lo ≤ cnt + 1
+      · rw [head?_flatMap_of_ne_nil, head?_flatMap_of_ne_nil, hhead st]
+        · cases (g st).head? with
+          | none => rfl
+          | some y => exact hpt y
+        · intro y _; split
+          · simp
+          · exact ne_nil g fuel (cnt + 1) y hlo
+        · intro y _; split
+          · simp
+          · exact ne_nil f fuel (cnt + 1) y hlo
+      · rw [DeadSub.flatMap_eq _ _ (hsub st)]
+        · exact head?_flatMap_congr _ _ _ (fun y _ => hpt y)
+        · intro y hy
+          have : (y.pos == st.pos && decide (lo ≤ cnt + 1)) = false := by simp [hlo]
+          rw [this]
+          exact dead_nil f hf fuel (cnt + 1) y hlo hy
+    have hm : (if canGo hi cnt = true then (f st).flatMap (fun st' =>
+            if (st'.pos == st.pos && decide (lo ≤ cnt + 1)) = true then [st']
+            else iter f lzy lo hi fuel (cnt + 1) st') else []).head?
+        = (if canGo hi cnt = true then (g st).flatMap (fun st' =>
+            if (st'.pos == st.pos && decide (lo ≤ cnt + 1)) = true then [st']
+            else iter g lzy lo hi fuel (cnt + 1) st') else []).head? := by
+      split
+      · exact hmore
+      · rfl
+    simp only [iter]
+    cases lzy
+    · simp only [Bool.false_eq_true, if_false]; exact head?_append_congr hm rfl
+    · simp only [if_true]; exact head?_append_congr rfl hm
+
+/-- `b'` is `b` with successes at dead positions pruned, the first success kept -/
+def Prunes (e : Env) (D : Nat → Bool) (b b' : Pat) : Prop :=
+  HeadEq e false b b' ∧ ∀ st, DeadSub D (m e b' false st) (m e b false st)
+
+theorem Prunes.refl (e : Env) (D : Nat → Bool) (b : Pat) : Prunes e D b b :=
+  ⟨HeadEq.refl e false b, fun _ => DeadSub.refl D _⟩
+
+/-- a greedy character loop made atomic -/
+theorem prunes_charloop (e : Env) (p : Pred) (lo : Nat) (hi : Option Nat) :
+    Prunes e (acc e p) (.quant false lo hi (.chr p)) (.atomic (.quant false lo hi (.chr p))) := by
+  refine ⟨headEq_atomic e false _, fun st => ?_⟩
+  rw [m_atomic]
+  apply DeadSub.take_one
+  intro t ht
+  rw [m_quant] at ht
+  exact charloop_tail_next e p lo hi _ 0 st t ht
+
+theorem Prunes.mono {e : Env} {D D' : Nat → Bool} {b b' : Pat} (hD : ∀ i, D i = true → D' i = true)
+    (h : Prunes e D b b') : Prunes e D' b b' := by
+  exact ⟨h.1, fun st => (h.2 st).mono hD⟩
+
+theorem Prunes.seq_last {e : Env} {D : Nat → Bool} {x x' : Pat} (a : Pat) (h : Prunes e D x x') :
+    Prunes e D (.seq a x) (.seq a x') := by
+  refine ⟨headEq_seq_ltr a h.1, fun st => ?_⟩
+  simp only [m, Bool.false_eq_true, if_false]
+  exact DeadSub.flatMap _ _ _ (fun y _ => h.2 y)
+
+theorem Prunes.cap {e : Env} {D : Nat → Bool} {x x' : Pat} (g : Nat) (h : Prunes e D x x') :
+    Prunes e D (.cap g x) (.cap g x') := by
+  refine ⟨headEq_cap g h.1, fun st => ?_⟩
+  simp only [m]
+  exact DeadSub.map
+    (fun st' => ({ st' with caps := st'.caps ++ [(g, min st.pos st'.pos, max st.pos st'.pos - min st.pos st'.pos)] } : St))
+    (fun _ => rfl) (h.2 st)
+
+/-- `(?:x L)*` in tail position: the trailing loop `L` of the body may be made atomic when the
+    body cannot start where `L` gives back -/
+theorem headEq_quant_prune {e : Env} {D : Nat → Bool} {b b' : Pat} (lzy : Bool) (lo : Nat) (hi : Option Nat)
+    (h : Prunes e D b b') (hb : Kills e D b) :
+    HeadEq e false (.quant lzy lo hi b) (.quant lzy lo hi b') := by
+  intro st
+  rw [m_quant, m_quant]
+  exact iter_head_prune _ _ h.1 h.2 hb lzy lo hi _ 0 st
 
 /-! ## scan level -/
 
